@@ -646,6 +646,15 @@ def _projection_index(ctx, u, cfg, call, key, depth=0):
         if r.kind == "stdlib" and r.qual in ("operator.itemgetter", "_operator.itemgetter"):
             return key.args[0].value
     if isinstance(key, ast.Name) and depth < 3:
+        # a named library function that only projects: ``def _key_of(pair): return pair[0]``
+        r_ = ctx.pkg.resolve_expr_global(u.module, key)
+        t_ = ctx.pkg.lib_unit(r_.qual) if r_ is not None and r_.kind == "lib" else None
+        if t_ is not None and t_.kind == "sync" and len(t_.param_names()) == 1:
+            body = [b for b in t_.node.body if not (isinstance(b, ast.Expr) and isinstance(b.value, ast.Constant))]
+            if len(body) == 1 and isinstance(body[0], ast.Return) and isinstance(body[0].value, ast.Subscript) \
+                    and isinstance(body[0].value.value, ast.Name) and body[0].value.value.id == t_.param_names()[0] \
+                    and isinstance(body[0].value.slice, ast.Constant) and isinstance(body[0].value.slice.value, int):
+                return body[0].value.slice.value
         sym = u.module.symbols.get(key.id)
         if sym is not None and sym[0] == "assign":
             return _projection_index(ctx, u, cfg, call, sym[1], depth + 1)
